@@ -22,7 +22,7 @@ TFile == /\ IsEvent("file")
          /\ Rec[l].built
          /\ FileStart(l)
 
-TScan == /\ l <= NRec /\ Rec[l].ev \in {"chk_file", "chk_lib", "chk_pages"} /\ phase \notin {"idle", "done"}
+TScan == /\ l <= NRec /\ Rec[l].ev \in {"chk_file", "chk_lib", "chk_pages", "chk_resources"} /\ phase \notin {"idle", "done"}
          /\ FileStep(TRUE)
          /\ UNCHANGED l
 
@@ -47,7 +47,12 @@ K_Rotate == <<82, 111, 116, 97, 116, 101>>
 MicroOf(v) == IF IsNum(v) /\ ~NumParts(v).big THEN NumParts(v).micro ELSE 0 - 1
 BoxIs(v, w, h) == v.t = "arr" /\ Len(v.v) = 4 /\ MicroOf(v.v[1]) = 0 /\ MicroOf(v.v[2]) = 0 /\ MicroOf(v.v[3]) = w * 1000000 /\ MicroOf(v.v[4]) = h * 1000000
 RotOf(v) == IF v.t = "none" THEN 0 ELSE IF v.t = "int" THEN NumParts(v).micro \div 1000000 ELSE 0 - 1
-PageSegs(pg) == IF pg.kind = "g" THEN GSegs(pg.prog) ELSE TExpected(pg.prog, 1, TInit0)
+\* calls that name a resource the API refused to register were never made
+RejectedNames(x) == LET P == Rec[fcase].prog.pages[x] A == Rec[fcase].accepted[x] IN
+                    IF "resources" \in DOMAIN P THEN {P.resources[i].name : i \in {j \in 1..Len(P.resources) : ~A[j]}} ELSE {}
+EffProg(x) == LET P == Rec[fcase].prog.pages[x] R == RejectedNames(x) IN
+              SelectSeq(P.prog, LAMBDA c : ~(c.c \in {"draw_image", "paint_shading"} /\ c.name \in R))
+PageSegsAt(x) == LET pg == Rec[fcase].prog.pages[x] IN IF pg.kind = "g" THEN GSegs(EffProg(x)) ELSE TExpected(EffProg(x), 1, TInit0)
 PageProblems ==
   LET P == Rec[fcase].prog.pages  L == Rec[fcase].lib IN
   (IF Len(PageList) = Len(P) THEN {} ELSE {"reference reader: page count"})
@@ -57,19 +62,58 @@ PageProblems ==
           (IF BoxIs(Deref(PageList[x].inh[K_MediaBox]), P[x].w, P[x].h) THEN {} ELSE {"reference reader: MediaBox"})
           \cup (IF RotOf(Deref(PageList[x].inh[K_Rotate])) % 360 = P[x].rot % 360 THEN {} ELSE {"reference reader: Rotate"})
           \cup (LET c == ContentOf(x) g == GroupOps(c.items)
-                IN IF c.ok /\ g.ok /\ Matches(g.ops, PageSegs(P[x]), FALSE) THEN {} ELSE {"reference reader: content operators"})
+                IN IF c.ok /\ g.ok /\ Matches(g.ops, PageSegsAt(x), FALSE) THEN {} ELSE {"reference reader: content operators"})
         ELSE {})
        \cup (IF x <= Len(L.pages) THEN
           (IF L.pages[x].ok /\ L.pages[x].mediaBox = <<0, 0, P[x].w * 1000000, P[x].h * 1000000>> THEN {} ELSE {"library: MediaBox"})
           \cup (IF L.pages[x].ok /\ L.pages[x].rotate % 360 = P[x].rot % 360 THEN {} ELSE {"library: Rotate"})
-          \cup (IF L.pages[x].ok /\ L.pages[x].content.parsed.ok /\ Matches(L.pages[x].content.parsed.ops, PageSegs(P[x]), TRUE) THEN {} ELSE {"library: content operators"})
+          \cup (IF L.pages[x].ok /\ L.pages[x].content.parsed.ok /\ Matches(L.pages[x].content.parsed.ops, PageSegsAt(x), TRUE) THEN {} ELSE {"library: content operators"})
         ELSE {}) : x \in 1..Len(P)}
 TChkPages == /\ IsEvent("chk_pages")
              /\ phase = "done"
              /\ IF PageProblems = {} THEN TRUE ELSE PrintT(<<"PROBLEMS", ToJson([idx |-> l, problems |-> PageProblems])>>) /\ FALSE
              /\ UNCHANGED allvars
 
-TNext == TFile \/ TScan \/ TChkFile \/ TChkLib \/ TChkPages
+\* [C30] every resource name the API accepted is a key of the page's resource dictionary (after reference-lexer
+\* decoding: the same bytes the user gave) that resolves to an object of the intended kind, and every name the
+\* content stream invokes is such a key
+K_Resources == <<82, 101, 115, 111, 117, 114, 99, 101, 115>>
+K_XObject == <<88, 79, 98, 106, 101, 99, 116>>
+K_Shading == <<83, 104, 97, 100, 105, 110, 103>>
+K_Subtype == <<83, 117, 98, 116, 121, 112, 101>>
+K_ShadingType == <<83, 104, 97, 100, 105, 110, 103, 84, 121, 112, 101>>
+N_Image == <<73, 109, 97, 103, 101>>
+N_Form == <<70, 111, 114, 109>>
+KeysOf(d) == IF d.t = "dict" THEN {d.v[i].k : i \in 1..Len(d.v)} ELSE {}
+ResourceProblems ==
+  LET P == Rec[fcase].prog.pages IN
+  UNION {
+    IF x > Len(PageList) \/ "resources" \notin DOMAIN P[x] THEN {}
+    ELSE LET R == Deref(PageList[x].inh[K_Resources])
+             xo == Deref(Get(R, K_XObject))
+             sh == Deref(Get(R, K_Shading))
+             c == ContentOf(x)
+             g == GroupOps(c.items)
+         IN UNION {
+              IF ~Rec[fcase].accepted[x][i] THEN {}
+              ELSE LET r == P[x].resources[i] IN
+                   IF r.kind = "shading"
+                   THEN (IF r.name \in KeysOf(sh) /\ Get(Deref(Get(sh, r.name)), K_ShadingType).t = "int" THEN {} ELSE {"shading name does not resolve"})
+                   ELSE (IF r.name \in KeysOf(xo) /\ Deref(Get(xo, r.name)).t = "stream"
+                            /\ IsName(Get(Deref(Get(xo, r.name)), K_Subtype), IF r.kind = "image" THEN N_Image ELSE N_Form)
+                         THEN {} ELSE {"XObject name does not resolve to the intended object"})
+              : i \in 1..Len(P[x].resources)}
+            \cup (IF c.ok /\ g.ok THEN {} ELSE {"page content does not lex"})
+            \cup (IF g.ok /\ \A o \in {g.ops[k] : k \in 1..Len(g.ops)} :
+                        (o.op = "Do" => o.args[1].b \in KeysOf(xo)) /\ (o.op = "sh" => o.args[1].b \in KeysOf(sh))
+                  THEN {} ELSE {"content invokes a name that is not in the resource dictionary"})
+    : x \in 1..Len(P)}
+TChkResources == /\ IsEvent("chk_resources")
+                 /\ phase = "done"
+                 /\ IF ResourceProblems = {} THEN TRUE ELSE PrintT(<<"PROBLEMS", ToJson([idx |-> l, problems |-> ResourceProblems])>>) /\ FALSE
+                 /\ UNCHANGED allvars
+
+TNext == TFile \/ TScan \/ TChkFile \/ TChkLib \/ TChkPages \/ TChkResources
 TraceSpec == TInit /\ [][TNext]_tvars
 Prog == Progress(l)
 =============================================================================
